@@ -160,6 +160,10 @@ def drive_v0(tier):
                     js = gen.tx_json(d)
                     before = tx.serialize()
                 for ht in hts:
+                    if ht % 16 == 5:
+                        # a call that cannot succeed (no amount / amount outside int64 / index out of range) leaves nothing behind
+                        call(SignatureHash, CScript(code), tx, idx, ht, r.choice([None, 2 ** 63, -2 ** 63 - 1]), SIGVERSION_WITNESS_V0)
+                        call(SignatureHash, CScript(code), tx, len(d["vin"]) + 2, ht, amount, SIGVERSION_WITNESS_V0)
                     if ht % 3 == 1:      # the same call with keyword arguments
                         k, v = call(SignatureHash, script=CScript(code), txTo=tx, inIdx=idx, hashtype=ht, amount=amount, sigversion=SIGVERSION_WITNESS_V0)
                     else:
